@@ -3,12 +3,13 @@ SPECIFICATION Spec
 CONSTANTS
   NK = 2
   NST = 2
+  NL = 2
   NSU = 1
   EmptyKey = 2
   MaxConn = 2
   MaxOps = 5
   Amounts = {0, 1}
   Counts = {1}
-INVARIANTS TypeOK ShownTcp ShownUdp OpenedEqClosed RememberedIsOwn
+INVARIANTS TypeOK ShownTcp ShownUdp ShownLoc OpenedEqClosed RememberedIsOwn
 VIEW ViewN
 CHECK_DEADLOCK FALSE
